@@ -65,20 +65,20 @@ class VThread:
         self.name = name
         self.target = target
         self.gate = gate             # callable -> bool: the thread may start only when true
-        self.sem = threading.Semaphore(0)
+        self.sem = None              # set by Sched.run(): the semaphore of the worker thread that carries it
+        self.worker = None
         self.state = 'new'           # new | ready | blocked | done
         self.block = None            # ('lock', VRLock) | ('wait', waitable, timed) | None
         self.woke = None             # 'ready' | 'timeout' (why a blocked thread was resumed)
         self.point = ('start', '', 0)
         self.exc = None
-        self.thread = None
 
     def __repr__(self):
         return '<VThread %s %s %r>' % (self.name, self.state, self.block)
 
 
 class Sched:
-    def __init__(self, deviations=None, watchdog=300.0, max_steps=20000):
+    def __init__(self, deviations=None, watchdog=300.0, max_steps=100000):
         self.threads = []
         self.by_ident = {}
         self.current = None
@@ -100,6 +100,8 @@ class Sched:
         self.on_wake = None          # f(thread): a blocked thread goes on (lock acquired / wait over)
         self.preemptions = 0
         self.switches = 0
+        self.run_len = 0
+        self.fair_limit = 3000       # steps a thread may run on while others could: then the default policy yields
 
     # -- set-up ---------------------------------------------------------------
     def add(self, name, target, gate=None):
@@ -146,6 +148,13 @@ class Sched:
         default = None
         if cur is not None:
             default = cur
+            self.run_len += 1
+            if self.run_len > self.fair_limit:
+                # a thread that spins without ever blocking must not starve the others
+                for t, h in opts:
+                    if t is not cur and h == 'run':
+                        default = t
+                        break
         else:
             for t, h in opts:
                 if h == 'run':
@@ -173,6 +182,7 @@ class Sched:
         if self.keep_log:
             self.log.append((self.step, cur.name if cur else '', [(t.name, h, t.state == 'new') for t, h in opts], chosen.name, default.name))
         if chosen is not cur:
+            self.run_len = 0
             self.switches += 1
             if cur is not None:
                 self.preemptions += 1
@@ -243,8 +253,8 @@ class Sched:
         return t.woke
 
     def _bootstrap(self, t):
-        self.by_ident[_thread.get_ident()] = t
-        t.sem.acquire()
+        """Body of a managed thread (runs on a persistent worker thread, which
+        has just been given the baton for the first time)."""
         try:
             if self.aborting:
                 return
@@ -280,10 +290,13 @@ class Sched:
             raise RuntimeError('a scheduler is already active')
         _ACTIVE = self
         self.failure = None
+        workers = _workers(len(self.threads))
         try:
-            for t in self.threads:
-                t.thread = threading.Thread(target=self._bootstrap, args=(t,), name='c03-' + t.name, daemon=True)
-                t.thread.start()
+            for t, w in zip(self.threads, workers):
+                t.worker = w
+                t.sem = w.sem                      # the baton semaphore of t is its worker's
+                self.by_ident[w.ident] = t
+                w.job = (lambda t=t: self._bootstrap(t))
             while True:
                 if all(t.state == 'done' for t in self.threads):
                     break
@@ -298,14 +311,10 @@ class Sched:
                 if self.failure:
                     raise Hang(self.failure)
         except BaseException:
-            self._abandon()
+            self._abandon(workers)
             raise
         finally:
             _ACTIVE = None
-        for t in self.threads:
-            t.thread.join(self.watchdog)
-            if t.thread.is_alive():
-                raise Hang('thread %s did not end' % t.name)
 
     def _pick_main(self):
         try:
@@ -313,15 +322,57 @@ class Sched:
         except _Abort:
             raise Hang(self.failure or 'aborted')
 
-    def _abandon(self):
-        """Unwind every managed thread (best effort; they are daemon threads)."""
+    def _abandon(self, workers):
+        """Unwind every managed thread (best effort); workers that do not come
+        back are dropped from the pool (they are daemon threads)."""
         self.aborting = True
         for t in self.threads:
             if t.state != 'done':
                 t.sem.release()
-        for t in self.threads:
-            if t.thread is not None:
-                t.thread.join(5.0)
+        for w in workers:
+            w.retire()
+
+
+class _Worker:
+    """A persistent OS thread that executes the managed threads of successive
+    runs (one job per run); its semaphore is the baton semaphore of the managed
+    thread it currently carries."""
+
+    def __init__(self, idx):
+        self.sem = threading.Semaphore(0)
+        self.job = None
+        self.retired = False
+        self.thread = threading.Thread(target=self._loop, name='c03-worker-%d' % idx, daemon=True)
+        self.thread.start()
+        self.ident = self.thread.ident
+
+    def _loop(self):
+        while not self.retired:
+            self.sem.acquire()
+            job = self.job
+            self.job = None
+            if job is not None and not self.retired:
+                job()
+
+    def retire(self):
+        self.retired = True
+        self.job = None
+        self.sem.release()
+
+
+_POOL = {'pid': None, 'workers': []}
+
+
+def _workers(n):
+    import os
+    if _POOL['pid'] != os.getpid():
+        _POOL['pid'] = os.getpid()       # threads do not survive fork()
+        _POOL['workers'] = []
+    ws = [w for w in _POOL['workers'] if not w.retired]
+    while len(ws) < n:
+        ws.append(_Worker(len(ws)))
+    _POOL['workers'] = ws
+    return ws[:n]
 
 
 # ---------------------------------------------------------------------------
